@@ -25,6 +25,7 @@ except Exception:           # pragma: no cover
     HAVE_JAX = False
 
 _PROBS = {}
+_GRADS = {}
 
 
 def get_problem(vec_size, width):
@@ -133,7 +134,9 @@ def handle_jax(c):
     rho = float(c['rho'])
     fn = ks_max if c['fn'] == 'ks_max' else ks_min
     val = float(fn(jnp.asarray(x), rho))
-    grad = np.array(jax.grad(fn)(jnp.asarray(x), rho), dtype=float)
+    if c['fn'] not in _GRADS:
+        _GRADS[c['fn']] = jax.jit(jax.grad(fn))
+    grad = np.array(_GRADS[c['fn']](jnp.asarray(x), rho), dtype=float)
     fx = [Fraction(float(v)) for v in x]
     frho = Fraction(rho)
     msgs, sig = [], ''
